@@ -295,6 +295,10 @@ class BaseKFACPreconditioner:
             compute_inverses = False  # Cannot be computed if no layers
         if compute_inverses:
             for name, layer in self._layers.values():
+                if layer.a_factor is None or layer.g_factor is None:
+                    # State was saved before the factors were first computed
+                    # so there is nothing to invert yet.
+                    continue
                 layer.compute_a_inv(damping=self.damping)
                 layer.compute_g_inv(damping=self.damping)
                 if self._assignment.broadcast_inverses():
